@@ -18,6 +18,7 @@ ASSUMES = ['alloc is called with n >= 1 and free with an address inside the clie
            'public reserve() is not in the alphabet of the property']
 
 SIG_F1 = 'C16:find_next-absolute-index-vs-relative-size'
+SIG_FOREIGN = 'C16:free-below-offset-negative-index'
 
 
 # ---------------------------------------------------------------------------
@@ -44,7 +45,7 @@ def gen_case(rng, malformed=False):
         k = rng.randrange(len(ops) + 1)
         bad = rng.choice([['a', 0, 1], ['a', -1, 1], ['a', size * 2, 0], ['f', off - 1], ['f', off + size], ['f', off - size],
                           ['f', off - size - 1], ['f', off + 5 * size], ['f', -3]])
-        ops.insert(k, bad)
+        ops = ops[:k] + [bad]          # outside the property's alphabet: compared informally, ends the history
         if rng.random() < 0.15:
             pos = size + rng.choice([0, 1])      # constructor fails
     return {'size': size, 'pos': pos, 'off': off, 'ops': ops}
@@ -94,18 +95,33 @@ def correspond(ctx):
             node_cases.append({'user': u, 'init': it, 'start': None, 'count': rng.randint(1, 12)})
             node_cases.append({'user': u, 'init': it, 'start': 67108863 - rng.randint(0, 6), 'count': rng.randint(2, 14)})
     node_cases.append({'user': 32, 'init': 1000, 'start': None, 'count': 1})
-    res = ctx.impl('c16_alloc', {'cases': cases, 'node': node_cases})
-    items, conc = [], []
+    res = ctx.impl('c16_alloc', {'cases': cases, 'node': node_cases, 'probe_foreign': True})
+    items, conc, informal = [], [], []
     for k, (case, ops, entries) in enumerate(zip(cases, res['ops'], res['cases'])):
-        cops = concrete(ops, entries)
+        cops_all = concrete(ops, entries)
+        lo_, hi_ = case['off'], case['off'] + case['size']
+        cut = len(cops_all)
+        for j, o in enumerate(cops_all):
+            if (o[0] == 'a' and o[1] < 1) or (o[0] == 'f' and not lo_ <= o[1] < hi_):
+                cut = j
+                break
+        init_failed = not (0 <= case['pos'] < case['size'])
+        if cut < len(cops_all) or init_failed:
+            c.count('outside-alphabet:' + ('constructor' if init_failed else 'alloc n<1' if cops_all[cut][0] == 'a' else 'free outside partition'))
+            informal.append('((%s, %s, %s), %s, %s)' % (cz(case['size']), cz(case['pos']), cz(case['off']), coq_ops(cops_all),
+                                                      clist([coq_entry(e) for e in entries])))
+        if init_failed:
+            cut = 0
+            entries = []
+        cops, entries = cops_all[:cut], entries[:cut]
         conc.append({'size': case['size'], 'pos': case['pos'], 'off': case['off'], 'ops': cops})
         items.append('((%s, %s, %s), %s, %s)' % (cz(case['size']), cz(case['pos']), cz(case['off']), coq_ops(cops),
-                                                clist([coq_entry(e) for e in entries])))
+                                                clist([coq_entry(e) for e in entries])) if not init_failed else
+                     '((4, 0, 0), [], [])')
         # distribution / non-triviality
         c.count('offset:' + ('zero' if case['off'] == 0 else 'nonzero'))
-        c.count('reserved:%d' % case['pos'])
+        c.count('reserved:%d' % min(case['pos'], 4))
         merged = chose = False
-        wellformed = all(o[1] >= 1 for o in cops if o[0] == 'a')
         alias_reported = False
         prev_cells = 1
         for o, e in zip(cops, entries):
@@ -119,16 +135,20 @@ def correspond(ctx):
                     chose = True
                     c.count('alloc:from-freed')
                 prev_cells = len(e[3])
-                if not e[6] and wellformed and not alias_reported:
+                if not e[6] and not alias_reported:
                     alias_reported = True
                     c.failures.append(Failure('correspondence', 'objects in _freed are not the objects of _array (identity model broken) in %s' % conc[-1], replay={'case': conc[-1]}))
-            if e[0] == 9:
-                c.failures.append(Failure('correspondence', 'unexpected exception %s in %s' % (e[-1], conc[-1]), replay={'case': conc[-1]}))
+            else:
+                c.failures.append(Failure('correspondence', 'exception %s inside the property alphabet in %s' % (e[-1], conc[-1]), replay={'case': conc[-1]}))
         if merged and chose:
             c.nontriv(json.dumps(conc[-1]))
     body = 'Eval vm_compute in bad_idx (check_case true) cases.'
     bad, errs = fw.check_shards(ctx, 'hist', HEADER, items, body, shard=60)
     c.evaluations = sum(len(x) for x in res['cases'])
+    if informal:
+        ibad, ierrs = fw.check_shards(ctx, 'hist_informal', HEADER, informal, body, shard=60)
+        c.notes.append('operations outside the property alphabet (alloc n<1, free outside the partition, constructor with pos>=size): '
+                       '%d histories, implementation differs from the line-by-line model (IndexError / Python negative indexing) in %d (informational, not a failure)' % (len(informal), len(ibad) + len(ierrs)))
     for e in errs:
         c.failures.append(Failure('correspondence', 'coq evaluation of history cases failed: ' + e))
     # classify disagreements: does the implementation behave like the unrepaired _find_next ?
@@ -149,6 +169,15 @@ def correspond(ctx):
             replay={'case': conc[i], 'impl_trace': res['cases'][i], 'corpus_case': i < ncorpus}, signature=None))
     c.notes.append('history cases: %d (corpus %d), disagreements: %d, of which explained by the rel=false variant: %d' % (
         len(cases), ncorpus, len(bad), sum(1 for v in sig_of.values() if v)))
+
+    # frees of addresses that are not the allocator's (hardware buses, other clients): must not free a live block
+    for b in res.get('foreign', [])[:1]:
+        b['user_level'] = ("default Server (audio allocator size 1020, addr_offset 4): b1 = AudioBus(1016); b2 = AudioBus(4)  # 1020..1023; "
+                           "AudioBus(2, s, index=0).free()  # hardware bus object; AudioBus(4).index == 1020 while b2 is live")
+        c.failures.append(Failure('search', 'ContiguousBlockAllocator(size=%d, pos=%d, addr_offset=%d), history %s: %s' % (
+            b['size'], b['pos'], b['off'], b['ops'], b['why']), signature=SIG_FOREIGN, replay=b, found_input=True,
+            theorem='alloc_disjoint_from_live (its hypothesis "free only inside the partition" is not enforced by free())'))
+    c.count('probe:foreign-free', 1)
 
     # node ids
     nitems, nidx = [], []
@@ -240,12 +269,13 @@ def correspond(ctx):
               'some alloc() took a block from _freed (or, for node ids, crossed the wrap; for server cases, frees with client id > 0)')
     c.samples = [{'case': conc[i], 'impl_last': res['cases'][i][-1][:5]} for i in range(min(4, len(conc)))]
     ctx._c16_bad_cases = [conc[i] for i in bad_sorted[:20]] + [sinfo[i][2] for i in sbad[:5]]
+    ctx._c16_explained_by_abs = bool(bad) and all(sig_of.get(i) for i in bad)
     return c
 
 
-def classify(why, off):
+def classify(why, off, explained_by_abs=False):
     if 'no space although' in why:
-        return SIG_F1 if off != 0 else 'C16:alloc-none-despite-free-run'
+        return SIG_F1 if (off != 0 and explained_by_abs) else 'C16:alloc-none-despite-free-run'
     if 'overlapping' in why:
         return 'C16:alloc-overlaps-live-range'
     if 'outside the partition' in why:
@@ -272,7 +302,7 @@ def search(ctx, failures):
             found.append(Failure('search', 'node ids on the implementation: ' + b['why'], signature='C16:nodeid', replay=b,
                                  found_input=True, theorem='nodeid_window_distinct,nodeid_in_client_range'))
             continue
-        sig = classify(b['why'], b['off'])
+        sig = classify(b['why'], b['off'], getattr(ctx, '_c16_explained_by_abs', False))
         if sig in seen:
             continue
         seen.add(sig)
